@@ -138,6 +138,13 @@ def _probe(tr, rig, base_id, vals, den):
     """three probe runs; returns an id-free summary"""
     from playback.tape_recorder import TapeRecorder
     spy = rig.cassette
+    # a replay first: nothing may have run in between that could reset per-run state on the recorder's behalf
+    res0 = _replay(tr, base_id, vals, P0)
+    if res0[0] == 'ok':
+        rp0 = ('ok', [(k, _norm(v)) for k, v in sc.outputs_as_map(res0[1].playback_outputs)], res0[2].journal,
+               [e[:3] for e in res0[2].sitelog])
+    else:
+        rp0 = ('exc', type(res0[1]).__name__)
     n0 = len(spy.log)
     _run_op(tr, vals, [_o('A', 1), _o('O', 1), _o('O', 0)], params={'sampling_rate': num(0, den)})
     ev_a = [e for e, _ in spy.log[n0:] if e != 'get']
@@ -155,7 +162,7 @@ def _probe(tr, rig, base_id, vals, den):
               [(k, _norm(v)) for k, v in sc.outputs_as_map(pb.recorded_outputs)], res[2].journal)
     else:
         rp = ('exc', type(res[1]).__name__)
-    return [ev_a, ev_b, content, rp, _idle(tr)]
+    return [ev_a, ev_b, content, rp, _idle(tr), rp0]
 
 
 def history_independent(hist: List[int], vals: List[int]) -> bool:
